@@ -118,6 +118,33 @@ func returnReachableAvoiding(b *ssa.BasicBlock, stop func(ssa.Instruction) bool)
 	return walk(b)
 }
 
+// returnReachableAfter: can a return be reached after instruction `from` without executing an instruction satisfying stop?
+func returnReachableAfter(from ssa.Instruction, stop func(ssa.Instruction) bool) bool {
+	b := from.Block()
+	after := false
+	for _, in := range b.Instrs {
+		if in == from {
+			after = true
+			continue
+		}
+		if !after {
+			continue
+		}
+		if stop(in) {
+			return false
+		}
+		if _, isRet := in.(*ssa.Return); isRet {
+			return true
+		}
+	}
+	for _, s := range b.Succs {
+		if returnReachableAvoiding(s, stop) {
+			return true
+		}
+	}
+	return false
+}
+
 type mustPass struct {
 	pkg, fn string
 	key     string
@@ -928,31 +955,53 @@ func checkLaunchErrorVerbatim(c *report.Ctx) {
 	n := 0
 	var bad []string
 	pos := token.NoPos
-	for _, st := range callSites(c, "L/rapid.agentLaunchError") {
-		args := st.Call.Common().Args
-		if len(args) != 3 {
+	idx := callersIndex(c)
+	// origins of the error handed to ExternalAgent.LaunchError, through the parameters of the helpers in between
+	var origins func(fn *ssa.Function, v ssa.Value, depth int, at ssa.Instruction)
+	origins = func(fn *ssa.Function, v ssa.Value, depth int, at ssa.Instruction) {
+		for _, leaf := range an.PhiLeaves(v) {
+			w := an.Strip(leaf, false)
+			if g := an.GlobalOf(w); strings.HasPrefix(g, "L/core.Err") {
+				n++
+				continue
+			}
+			if cl, _ := an.CallOf(w); cl != nil && strings.HasSuffix(an.Callee(cl), ".Exec") {
+				n++
+				continue
+			}
+			if p, isP := w.(*ssa.Parameter); isP && depth < 4 {
+				pi := -1
+				for i, q := range fn.Params {
+					if q == p {
+						pi = i
+					}
+				}
+				followed := false
+				for _, call := range idx[fn] {
+					if pi >= 0 && pi < len(call.Common().Args) {
+						followed = true
+						origins(call.Parent(), call.Common().Args[pi], depth+1, call)
+					}
+				}
+				if followed {
+					continue
+				}
+			}
+			bad = append(bad, an.FuncName(fn)+": "+an.Path(w))
+			pos = an.InstrPos(at)
+		}
+	}
+	for _, st := range callSites(c, "L/core.ExternalAgent.LaunchError") {
+		if !strings.HasPrefix(an.FuncName(st.Fn), "L/rapid.") {
 			continue
 		}
-		n++
-		ok := false
-		for _, leaf := range an.PhiLeaves(args[2]) {
-			v := an.Strip(leaf, false)
-			if g := an.GlobalOf(v); strings.HasPrefix(g, "L/core.Err") {
-				ok = true
-				continue
-			}
-			if cl, _ := an.CallOf(v); cl != nil && strings.HasSuffix(an.Callee(cl), ".Exec") {
-				ok = true
-				continue
-			}
-			ok = false
-			bad = append(bad, an.FuncName(st.Fn)+": "+an.Path(v))
-			pos = an.InstrPos(st.Call)
-			break
+		args := st.Call.Common().Args
+		if len(args) != 2 {
+			continue
 		}
-		_ = ok
+		origins(st.Fn, args[1], 0, st.Call)
 	}
-	c.Check("R-ERRID", "L/rapid.agentLaunchError/error-verbatim", "the launch error handed to the extension's state is a core sentinel or the supervisor's error itself, never a wrapped or re-made one (its classification - PermissionDenied, TooManyExtensions - is by identity and os.IsPermission)", len(bad) == 0 && n >= 2, pos, n, "call sites: %d; re-made errors: %v", n, bad)
+	c.Check("R-ERRID", "L/rapid.agentLaunchError/error-verbatim", "the launch error handed to the extension's state is a core sentinel or the supervisor's error itself, never a wrapped or re-made one (its classification - PermissionDenied, TooManyExtensions - is by identity and os.IsPermission)", len(bad) == 0 && n >= 2, pos, n, "origins of the recorded launch error: %d; re-made errors: %v", n, bad)
 }
 
 // checkEmulatorInitCopy: the front end's init request reaches the core with every field it carries.
@@ -1156,6 +1205,17 @@ func relKey(f *ssa.Function, bo *ssa.BinOp) (string, bool) {
 func checkBucketAcceptsValidCombinations(c *report.Ctx) {
 	f := fn(c, bwP, "NewBucket")
 	if f == nil {
+		return
+	}
+	// the outcome depends on the four parameters through comparisons only: decide it per ordering
+	var wrong []string
+	if decided, rows := decideRefusals(f, 4, 1, func(a []int64, refused bool) {
+		want := a[0] <= 0 || a[1] < 0 || a[2] <= 0 || a[3] <= 0 || a[0] < a[1]
+		if want != refused && len(wrong) < 3 {
+			wrong = append(wrong, sprintf("(capacity %d, initial %d, refill %d, interval %d) refused: %v", a[0], a[1], a[2], a[3], refused))
+		}
+	}); decided {
+		c.Check("R-GUARD", an.FuncName(f)+"/refusal-conditions", "NewBucket refuses exactly: capacity <= 0, initial < 0, refill <= 0, interval <= 0, capacity < initial; a refill larger than the capacity is a legal combination of the rate and burst headers (decided per ordering of the parameters and the constants compared with)", len(wrong) == 0 && rows > 0, fpos(f), rows, "orderings decided: %d; wrong outcomes: %v", rows, wrong)
 		return
 	}
 	want := map[string]bool{"p0 <= 0": true, "p1 <= -1": true, "p2 <= 0": true, "p3 <= 0": true, "p0 < p1": true}
